@@ -77,6 +77,9 @@ def check_last_getters(res, n):
         ops = wl.gen_ops(rng, cfg, rng.randrange(1, 5), blocks=True, close=False)
         # the channel path itself may look like the names the writer manipulates (mktemp -d gives /tmp/tmp.XXXX)
         chdir = os.path.join(work, ["g%d", "tmp.g%d", "rf@%d.000.h5", "tmp.rf@%d.h5"][i % 4] % i, ["ch", "tmp.ch"][(i // 4) % 2])
+        if i % 5 == 3:
+            # ... or be long (more than 300 characters, well inside the library's 1024)
+            chdir = os.path.join(work, "g%d" % i, "d" * 100, "e" * 100, "f" * 70, "ch")
         reports, w = wl.run_impl(cfg, ops, chdir)
         m = wl.abs_of_history(cfg, ops, reports)
         hist = {"cfg": cfg.as_dict(), "ops": [list(op) for op in ops]}
